@@ -94,7 +94,8 @@ class RevisitTable:
 def exchange(rec, k, header_t, body, table):
     s = rec.new_http_recorder_session()
     if table is not None: s._url_table = table
-    req = Request('http://example.com/p%d' % k); req.address = ('127.0.0.1', 80); req.prepare_for_send()
+    # every fourth URL is LONG (a 1500-character query): named fields occupy one line each whatever their length
+    req = Request('http://example.com/p%d%s' % (k, ('?q=' + 'a1b2c3d4e5' * 150) if k % 4 == 3 else '')); req.address = ('127.0.0.1', 80); req.prepare_for_send()
     uri = req.url_info.url.encode()
     if k % 2 == 0:
         s.begin_request(req); s.request_data(req.to_bytes()); s.end_request(req)
